@@ -65,6 +65,39 @@ claim("C12", "DESIGN.md §3 C12",
       "Static analysis decides that the three proof verifiers turn every panic below them into a rejection, that audit-path keys and decoded answers are guarded before use, that decode failures end the call, and that verifier traversals terminate (order-test base case exact on every ordering of node height vs. forged path height; structural descent). It does not bound memory.",
       TRUST + "recover() semantics of Go. Declined: memory bounds; malformed gossip to the agents.")
 
+claim("C13", "DESIGN.md §3 C13",
+      "field-binding tables over provenance terms, codec agreement (separator/order/width, type byte, shared handles), struct-completeness and buffer-alias rules (static)",
+      "Static analysis decides writer/reader agreement of every codec pair: each constructor/conversion binds every field to the source of the corresponding meaning, the audit-path key codec agrees on separator/order/width, commands carry one type byte and codecs share handles, encoded bytes never alias recycled buffers, wire structs are complete and Snapshot types identical. It does not decide value-level round trips.",
+      TRUST + "encoding/json and msgpack round-trip the field types. Declined: verdict equality for all genuine proofs and magnitudes.")
+claim("C14", "DESIGN.md §3 C14",
+      "registry agreement by decision-table evaluation on every constant, prefix-discipline dominance in tree-iteration callbacks, handle-selection provenance, batch-shape and absence rules (static)",
+      "Static analysis decides the isolation mechanics of both back-ends: distinct names/prefixes per table constant and column families in constant order, B+tree keys prefixed in / stripped out and every iteration callback bounded by the table prefix, RocksDB methods using the handle of their own table, one batch per Mutate, absence signalled by ErrKeyNotFound decided by nil-ness. It does not decide equivalence with a map model.",
+      TRUST + "btree iteration order; column-family isolation. Declined: map-model equivalence over sequences; durability.")
+claim("C15", "DESIGN.md §3 C15",
+      "provenance of keys/handles/values per LogStore/StableStore method, must-write and no-memo rules (static)",
+      "Static analysis decides table isolation, big-endian index keys, iterator-derived First/LastIndex, half-open translation and unconditional write of DeleteRange, batch completeness of StoreLogs and codec handle sharing of the raft log store. The cgo wrapper's bodies are outside the analysis.",
+      TRUST + "the rocksdb wrapper returns nil exactly for absent keys. Declined: map-model behaviour, reopen survival.")
+claim("C16", "DESIGN.md §3 C16",
+      "provenance of recorded metadata and identifiers, lockset at the backup call, parse-width rule, listing-loop and routing rules (static)",
+      "Static analysis decides QED's plumbing around RocksDB's backup engine: recorded version = Version()-1 under the node lock, identifiers passed through unchanged and untruncated, complete per-index listing, routing, cache rebuild on open. It does not decide the content of a backup.",
+      TRUST + "RocksDB backup engine semantics. Declined: restored content and continuation at v+1.")
+claim("C17", "DESIGN.md §3 C17",
+      "who-may-send, per-iteration-allocation, ordering (flush test before append), must-replace-after-publish, provenance of signed bytes, escape of the batch (static)",
+      "Static analysis decides the hand-off and batching mechanics: single producer sending one distinct copy per snapshot, flush-if-full test preceding the append with a fresh batch on the full edge and after every publish, conservation of received snapshots, non-empty timer flush, signature over the whole snapshot with no shared scratch state, goroutine-local batch, key use. It does not decide timing-dependent loss/duplication.",
+      TRUST + "ed25519; channel semantics. Declined: all arrival timings; cryptographic unforgeability.")
+claim("C18", "DESIGN.md §3 C18",
+      "dominating TTL guard + ordering, guarded effects and must-record in the processor, provenance of the exclusion list, lockset guard table, nil-guard rule (static)",
+      "Static analysis decides the structural conditions of bounded, once-only, never-self-addressed gossip: strict TTL>0 guard with one unconditional decrement before encoding, effects only on the not-processed edge with the digest recorded at lookup time, self and source excluded by name before selection, topology map under its mutex, nil-tested peer lists. It does not decide network-level termination.",
+      TRUST + "memberlist callbacks run on its own goroutines. Declined: dissemination termination, all interleavings.")
+claim("C19", "DESIGN.md §3 C19",
+      "provenance of request/verification arguments, must-verify on all successful paths, alert-edge rule, cooperating-site type agreement, guarded-forward rule (static)",
+      "Static analysis decides the wiring of auditor, monitor and publisher: proof requested and verified for the right snapshots with the right digests on every successful path, alert exactly on the failing edge and on refused requests (error type named by the auditor = type built by the client), publisher forwards on cache miss keyed by signature with the key recorded first. It does not decide the iff over all tamperings.",
+      TRUST + "verdicts as decided by C02/C03. Declined: iff over every tampering; redelivery schedules.")
+claim("C20", "DESIGN.md §3 C20",
+      "dominating liveness/kind guards at every return, loop-progress classification of every back edge (one-shot flag, bounded counter, shrinking set), who-may-call for writes, locksets (static)",
+      "Static analysis decides the client's selection guards (no dead or non-permitted endpoint handed out), bounded round-robin scans, writes only via callPrimary to topology.Primary(), a progress argument on every way round every loop of callPrimary/callAny/discover/retrier, leader-as-primary on topology updates, and lock discipline. It does not decide convergence or fairness.",
+      TRUST + "Declined: convergence after leader change, fairness of rotation.")
+
 NOT_YET = "check not built yet (static rules for this property are planned in DESIGN.md §3)"
 ALL = ["C%02d" % i for i in range(1, 21)]
 NA = {}
